@@ -33,6 +33,9 @@ type JApiCore struct {
 	// macro contains list of all project macros.
 	macro map[string]*directive.Directive
 
+	// macroOrder keeps names of macros in order of their definition.
+	macroOrder []string
+
 	// directiveFunctions map between available directives and function which
 	// should be used for processing.
 	directiveFunctions map[directive.Enumeration]func(*directive.Directive) *jerr.JApiError
